@@ -103,6 +103,11 @@ func IsValid(g Graph) bool {
 	if n < 0 {
 		return false
 	}
+	if n > len(g) {
+		// A digraph6 string is always longer than its order;
+		// this also keeps n*n below from overflowing.
+		return false
+	}
 	size := (n*n + 5) / 6 // ceil(n^2 / 6)
 	g = g[1:]
 	switch {
